@@ -1,0 +1,59 @@
+// Copyright 2026 The Go Authors. All rights reserved.
+// Use of this source code is governed by a BSD-style
+// license that can be found in the LICENSE file.
+
+//go:build verif
+
+package ssh
+
+// Verification hooks (build tag "verif" only): exported access to the
+// algorithm negotiation for model-based conformance checking.
+
+// VerifKexInit mirrors the name-list fields of a KEXINIT message.
+type VerifKexInit struct {
+	KexAlgos                []string
+	ServerHostKeyAlgos      []string
+	CiphersClientServer     []string
+	CiphersServerClient     []string
+	MACsClientServer        []string
+	MACsServerClient        []string
+	CompressionClientServer []string
+	CompressionServerClient []string
+}
+
+func (k *VerifKexInit) msg() *kexInitMsg {
+	return &kexInitMsg{
+		KexAlgos:                k.KexAlgos,
+		ServerHostKeyAlgos:      k.ServerHostKeyAlgos,
+		CiphersClientServer:     k.CiphersClientServer,
+		CiphersServerClient:     k.CiphersServerClient,
+		MACsClientServer:        k.MACsClientServer,
+		MACsServerClient:        k.MACsServerClient,
+		CompressionClientServer: k.CompressionClientServer,
+		CompressionServerClient: k.CompressionServerClient,
+	}
+}
+
+// VerifNegotiated is the result of findAgreedAlgorithms including the
+// unexported compression fields.
+type VerifNegotiated struct {
+	Algs                              NegotiatedAlgorithms
+	ReadCompression, WriteCompression string
+}
+
+// VerifFindAgreedAlgorithms runs findAgreedAlgorithms on a KEXINIT pair that
+// first goes through Marshal/Unmarshal, as it would on the wire.
+func VerifFindAgreedAlgorithms(isClient bool, client, server *VerifKexInit) (*VerifNegotiated, error) {
+	var c, s kexInitMsg
+	if err := Unmarshal(Marshal(client.msg()), &c); err != nil {
+		return nil, err
+	}
+	if err := Unmarshal(Marshal(server.msg()), &s); err != nil {
+		return nil, err
+	}
+	algs, err := findAgreedAlgorithms(isClient, &c, &s)
+	if err != nil {
+		return nil, err
+	}
+	return &VerifNegotiated{Algs: *algs, ReadCompression: algs.Read.compression, WriteCompression: algs.Write.compression}, nil
+}
